@@ -47,7 +47,7 @@ def add(cfg, tiers=("thorough",)):
 Q = ("quick", "thorough")
 # psi decreasing outwards (bpsign = -1): the shipped examples
 add(tok("lsn", "lsn", SN), Q)
-add(tok("cdn", "cdn", CDN), Q)
+add(tok("cdn", "cdn", CDN, options=dict(ny_outer_lower_divertor=10)), Q)
 # psi increasing outwards (bpsign = +1)
 add(tok("lsn_neg", "lsn", SN, sign=-1.0), Q)
 # non-orthogonal
@@ -55,7 +55,7 @@ add(tok("lsn_nonorth", "lsn", nonorth(SN)), Q)
 add(tok("lsn_neg_nonorth", "lsn", nonorth(SN), sign=-1.0), Q)
 add(dict(name="circ", kind="circular", options=dict(number_of_processors=1, nx_core=4, ny_total=8)), Q)
 # thorough-only members
-add(tok("usn", "usn", SN))
+add(tok("usn", "usn", SN, options=dict(ny_inner_divertor=3, ny_sol=8, ny_outer_divertor=5)), Q)
 add(tok("udn", "udn", DN))
 add(tok("ldn", "ldn", DN))
 add(tok("udn2", "udn2", DN))
@@ -71,6 +71,8 @@ add(tok("lsn_revBt", "lsn", SN, fpol_sign=-1.0))
 add(tok("lsn_fine", "lsn", SN, options=dict(finecontour_Nfine=200)))
 add(tok("lsn_upper_outer", "lsn", SN, options=dict(start_at_upper_outer=True)))
 add(tok("udn_m", "udn_m", DN, mirror=True))
+add(tok("udn_uo", "udn", DN, options=dict(start_at_upper_outer=True)))
+add(tok("cdn_uo", "cdn", CDN, options=dict(start_at_upper_outer=True)))
 add(dict(name="circ_big", kind="circular", options=dict(number_of_processors=1, nx_core=6, ny_total=16, q_coefficients=[1.5, 0.5, 2.0])))
 
 
